@@ -41,11 +41,13 @@ Record scfg := {
   g_producer : bool;   (* ZSTD_hasExtSeqProd *)
   g_dict : N;          (* dictSize as computed at the top of the copiers *)
   g_maxNbSeq : N;      (* seqStore.maxNbSeq *)
-  g_vfix : bool;       (* false: the code as found (finding F4: bound computed from the position AFTER the match);
-                          true : the repaired rule (bound computed from the position at the match start) *)
-  g_vraw : bool }.     (* false: the code as found (the offset test is applied to offBase AFTER repcode substitution, so an
-                          offset equal to a repeat offset - e.g. the initial 1/4/8 - is never tested);
-                          true : the repaired rule (the raw offset is tested) *)
+  g_fixed : bool }.    (* true : the code as repaired (fix: commits after findings F4 / repcode bypass / U32 wrap): every piece is
+                                 first checked against what remains of the block with size_t sums, then - when validating - the
+                                 RAW offset is tested against the bound at the position where the match STARTS, before any
+                                 repcode substitution;
+                          false: the code of the pinned snapshot: posInSrc is advanced by the U32 sum litLength+matchLength
+                                 first, the bound is computed from that end position and compared with offBase AFTER repcode
+                                 substitution; kept for the refutation witnesses *)
 
 (* ---------- ZSTD_validateSequence ---------- *)
 Definition match_len_lower (cfg : scfg) : N := if (g_minMatch cfg =? 3) || g_producer cfg then 3 else 4.
@@ -54,8 +56,9 @@ Definition offset_bound (cfg : scfg) (pos : N) : N :=
 Definition validate_sequence (cfg : scfg) (offBase ml pos : N) : bool :=
   negb (offset_bound cfg pos + 3 <? offBase) && negb (ml <? match_len_lower cfg).
 
-(* position handed to ZSTD_validateSequence, given posInSrc already advanced by litLength+matchLength *)
-Definition validate_pos (cfg : scfg) (posAfter ml : N) : N := if g_vfix cfg then posAfter - ml else posAfter.
+(* repaired ZSTD_validateSequence(rawOffset, matchLength, minMatch, position of the match start, ...) *)
+Definition validate_fixed (cfg : scfg) (raw ml pos : N) : bool :=
+  negb (raw =? 0) && negb (offset_bound cfg pos <? raw) && negb (ml <? match_len_lower cfg).
 
 (* ---------- ZSTD_finalizeOffBase / ZSTD_updateRep ---------- *)
 Definition finalize_offbase (raw : N) (rep : reps) (ll0 : bool) : N :=
@@ -93,17 +96,25 @@ Record cst := {           (* running state of a copier inside one block *)
   k_cnt : N;              (* idx - seqPos->idx *)
   k_acc : list sseq }.    (* seqStore, newest first *)
 
-Definition store_seq (cfg : scfg) (ers : bool) (bsz : N) (raw ll ml : N) (st : cst) : outc cst :=
+Definition store_tail (cfg : scfg) (ers : bool) (bsz raw ll ml pos' : N) (st : cst) : outc cst :=
   let '(ob, rep') := code_offset ers raw ll (k_rep st) in
   if ers && (ob =? 0) && negb (ll =? 0) then Oob 9   (* raw offset 2^32-3: OFFSET_TO_OFFBASE wraps to 0, ZSTD_updateRep reads rep[0xFFFFFFFF] *)
-  else
-  let pos' := if g_validate cfg then k_pos st + add32 ll ml else k_pos st in
-  let vcode := if g_vraw cfg then raw + 3 else ob in
-  if g_validate cfg && negb (validate_sequence cfg vcode ml (validate_pos cfg pos' ml)) then Invalid 1
   else if g_maxNbSeq cfg <=? k_cnt st then Invalid 2
   else if bsz <? k_ip st + ll then Oob 3          (* ZSTD_storeSeq copies litLength bytes starting at ip; limit is iend *)
   else Done {| k_rep := rep'; k_pos := pos'; k_ip := k_ip st + add32 ml ll; k_cnt := k_cnt st;
                k_acc := {| t_ll := ll; t_ml := ml; t_ob := ob; t_raw := raw |} :: k_acc st |}.
+
+Definition store_seq (cfg : scfg) (ers : bool) (bsz : N) (raw ll ml : N) (st : cst) : outc cst :=
+  if g_fixed cfg then
+    if (k_ip st <=? bsz) && (bsz - k_ip st <? ll + ml) then Invalid 14       (* "Sequence is longer than the block" (size_t sum) *)
+    else if g_validate cfg && negb (validate_fixed cfg raw ml (k_pos st + ll)) then Invalid 1
+    else store_tail cfg ers bsz raw ll ml (if g_validate cfg then k_pos st + ll + ml else k_pos st) st
+  else
+    let pos' := if g_validate cfg then k_pos st + add32 ll ml else k_pos st in
+    let '(ob, _) := code_offset ers raw ll (k_rep st) in
+    if ers && (ob =? 0) && negb (ll =? 0) then Oob 9
+    else if g_validate cfg && negb (validate_sequence cfg ob ml pos') then Invalid 1
+    else store_tail cfg ers bsz raw ll ml pos' st.
 
 Definition bump (st : cst) : cst :=
   {| k_rep := k_rep st; k_pos := k_pos st; k_ip := k_ip st; k_cnt := k_cnt st + 1; k_acc := k_acc st |}.
